@@ -2,19 +2,15 @@ import Xo.LayR
 import Xo.Model.Layout
 import Xo.Model.Path
 import Xo.Model.Index
+import Xo.Model.ToLay
 /-! glue between the protocol's types/values (names, index order, input forms) and the proof model `Lay`
 (positional fields, memory order, canonical values); used by the `lay` driver so that the proof model's own
 definitions are executed against the implementation on every reference-free case -/
 namespace Drv.LayP
 open CGen
 
-/-- reference-free types have a proof-model counterpart -/
-partial def tyP : CGen.Ty → Option Lay.Ty
- | .scalar s => some (.scalar s.size)
- | .string => some .string
- | .struct _ fs => (fs.mapM fun f => tyP f.2).map .struct
- | .array it shp ord => (tyP it).map fun i => .array i shp ord
- | .ref _ | .unionref .. => none
+/-- reference-free types have a proof-model counterpart: the total translation the link theorems are about -/
+def tyP (t : CGen.Ty) : Option Lay.Ty := Lay.toLay t
 
 /-- the canonical proof-model value of an input form: fields by position, array items in memory order -/
 partial def valP (t : CGen.Ty) (v : LayM.VIn) : Option Lay.Val :=
